@@ -12,7 +12,8 @@
    streaming, no signature in deflated data of the generated bodies) is established on archives written by
    archive/zip with the entry list read back as oracle (c19 channel, predicates c19_forward / c19_converse). *)
 From Verif Require Import Base.Bytes Model.Types Model.GoLite Model.Zip Model.Detect Gen.TreeData Gen.SigData
-  Spec.SpecZip Proofs.ZipP Proofs.ZipWalkP Model.Detectors Gen.FuncTerms Proofs.TranslateP.
+  Spec.SpecZip Proofs.ZipP Proofs.ZipWalkP Model.Detectors Gen.FuncTerms Proofs.TranslateP
+  Model.GoRes Gen.SrcFuncs Proofs.SrcZipP.
 
 Theorem C19_first_entry_signature_found :
   forall skip hdr name rest sig mso,
@@ -102,3 +103,19 @@ Print Assumptions C19_zip_signature_is_the_source.
 Theorem C19_zip_calls_are_the_source : call_shapes_agree_for ["Docx"; "Xlsx"; "Pptx"; "Jar"]%string = true.
 Proof. vm_compute. reflexivity. Qed.
 Print Assumptions C19_zip_calls_are_the_source.
+
+(* the walk the theorems above are about IS the current source: zipContains as translated from
+   /repo/internal/magic/zip.go on this run (readBuf.advance, the skip list, the uint32 search offset, the second hop
+   indexed relative to raw[searchOffset:], four further hops) never reaches Panic and returns zip_contains, for every
+   input, marker and msoCheck; the five detectors built on it return the models of their nodes *)
+Theorem C19_zip_walk_is_the_source :
+  forall raw sig mso, src_zipContains raw sig mso = Val (zip_contains skip_files raw sig mso).
+Proof. exact src_zipContains_ok. Qed.
+Print Assumptions C19_zip_walk_is_the_source.
+
+Theorem C19_zip_detectors_are_the_source : forall raw l,
+  src_Docx raw l = Val (zc raw (first_lit "Docx") true) /\ src_Xlsx raw l = Val (zc raw (first_lit "Xlsx") true) /\
+  src_Pptx raw l = Val (zc raw (first_lit "Pptx") true) /\ src_Jar raw l = Val (zc raw (first_lit "Jar") false) /\
+  src_APK raw l = Val (existsb (fun s => zc raw s false) (lits_of "APK")).
+Proof. intros raw l. repeat split. - apply src_Docx_ok. - apply src_Xlsx_ok. - apply src_Pptx_ok. - apply src_Jar_ok. - apply src_APK_ok. Qed.
+Print Assumptions C19_zip_detectors_are_the_source.
